@@ -171,6 +171,27 @@ def spec_repr(spec):
     return '[' + ', '.join(one(i) if isinstance(i, str) else '(%s, %s)' % (one(i[0]), one(i[1])) for i in spec) + ']'
 
 
+OUTSIDE_SIG = 'replace:integral-by-integral-outside:loop-id-collision'
+
+
+def outside_collision_minimal(function):
+    """recorded minimal input of the open finding: an integral whose (non-scalar) argument is replaced, from outside, by another
+    integral.  Specification: the value of f with u bound to the value of g.  True = still fails."""
+    from nutils import mesh
+    topo, geom = mesh.rectilinear([3])
+    basis = topo.basis('std', degree=1)
+    J = function.J(geom)
+    u = function.field('u', basis)
+    f = topo.integral(u**2 * J, degree=2)
+    g = topo.integral(basis * geom[0] * J, degree=2)
+    kg, gv = feval(function, g, {})
+    kf, want = feval(function, f, dict(u=gv)) if kg == 'ok' else ('n/a', None)
+    if kf != 'ok':
+        raise Infra('C13: the components of the recorded input of %s do not evaluate' % OUTSIDE_SIG)
+    kr, got = X.guarded(lambda: numpy.asarray(function.eval(function.replace_arguments(f, {'u': g}))), 20)
+    return not (kr == 'ok' and X.arrays_close(got, want))
+
+
 # ------------------------------------------------------------------------------------------------ the check
 
 def run(c):
@@ -206,6 +227,8 @@ def _run(c):
             u_ = function.Argument('u', (3,), float)
             k_, v_ = X.guarded(lambda: function.derivative(function.diagonalize(u_)[:, 0:2]**3, 'u').as_evaluable_array.simplified, 10)
             c.report_known_still_failing(entry, k_ == 'hang' or (k_ == 'exception' and 'caught in a loop' in str(v_)))
+        if entry.get('status') == 'open' and entry.get('signature') == OUTSIDE_SIG:
+            c.report_known_still_failing(entry, outside_collision_minimal(function))
     speceval = collections.Counter()
 
     def values_for(*arrays, extra=()):
@@ -383,48 +406,40 @@ def _run(c):
         agrees = min(errs) <= 1e-5 * scale or errs[-1] <= .25 * errs[0]
         return ('ok', bool(agrees), tolist(fds[-1]), tolist(lv), errs)
 
-    N2 = 50 if quick else 2000
-    for i in range(N2):
-        poly = rng.random() < .7
-        gen = G.FGen(rng, poly=poly, ints=rng.random() < .3)
-        shape = rng.choice([(), (3,), (2,), (2, 3), (3,)])
-        try:
-            f = gen.array(shape, rng.randint(1, 3 if quick else 4))
-        except Exception as e:
-            c.count('generator-exception:' + type(e).__name__); continue
-        fkeys = [n for n, (s, d) in f.arguments.items() if d == float and n in G.POOL]
+    def linearize_case(f, gen, pool, tag='plain'):
+        fkeys = [n for n, (s, d) in f.arguments.items() if d == float and n in pool]
         if not fkeys:
-            c.count('linearize:no-real-argument'); continue
-        if not base_ok(c, f): continue
+            c.count('linearize:no-real-argument'); return
+        if not base_ok(c, f): return
         rng.shuffle(fkeys)
         keys = fkeys[:rng.randint(1, min(2, len(fkeys)))]
         pairs = []
         for k in keys:
-            same = [o for o in G.POOL if o != k and G.POOL[o] == G.POOL[k]]
+            same = [o for o in pool if o != k and pool[o] == pool[k]]
             r = rng.random()
             if r < .45: pairs.append((k, G.FRESH[k]))
             elif r < .8: pairs.append((k, rng.choice(same)))
-            else: pairs.append((k, gen.array(G.POOL[k][0], rng.randint(0, 1))))
+            else: pairs.append((k, gen.array(pool[k][0], rng.randint(0, 1))))
         if rng.random() < .2:
-            absent = [o for o in G.POOL if o not in f.arguments and G.POOL[o][1] == float]
+            absent = [o for o in pool if o not in f.arguments and pool[o][1] == float]
             if absent: pairs.append((absent[0], G.FRESH[absent[0]]))
-        kind, spec = G.spell(rng, pairs, lambda k: G.POOL[k])
+        kind, spec = G.spell(rng, pairs, lambda k: pool[k])
         c.count('linearize:spelling:' + kind)
-        replay = dict(stream='linearize', spec=spec_repr(spec), f=describe(function, f), f_arguments=sig_of(f.arguments))
+        replay = dict(stream='linearize', tag=tag, spec=spec_repr(spec), f=describe(function, f), f_arguments=sig_of(f.arguments))
         try:
             L = function.linearize(f, spec)
         except NameError as e:
             c.case(('lin-raise', spec_repr(spec)))
-            c.failing_input('argspec:argument-object-nameerror', 'linearize with Argument objects as keys raises NameError: %s' % e, replay); continue
+            c.failing_input('argspec:argument-object-nameerror', 'linearize with Argument objects as keys raises NameError: %s' % e, replay); return
         except Exception as e:
             c.case(('lin-raise', spec_repr(spec)))
-            c.failing_input('linearize:raises:' + type(e).__name__, 'linearize raises %s on a valid specification: %s' % (type(e).__name__, str(e)[:120]), replay); continue
+            c.failing_input('linearize:raises:' + type(e).__name__, 'linearize raises %s on a valid specification: %s' % (type(e).__name__, str(e)[:120]), replay); return
         dk = keys[0]
         var = dk if rng.random() < .5 else function.Argument(dk, *f.arguments[dk])
         try:
             D = function.derivative(f, var)
         except Exception as e:
-            c.failing_input('derivative:raises:' + type(e).__name__, 'derivative raises %s: %s' % (type(e).__name__, str(e)[:120]), dict(replay, var=dk)); continue
+            c.failing_input('derivative:raises:' + type(e).__name__, 'derivative raises %s: %s' % (type(e).__name__, str(e)[:120]), dict(replay, var=dk)); return
         if rng.random() < .3:
             # derivative to an Argument the array does not depend on: zeros of shape f.shape + var.shape
             try:
@@ -467,9 +482,9 @@ def _run(c):
             reqs, s = expr_requests(roots, values, lins=[dict(root=0, pairs=lpairs, cmp=1, stages=[stage] if stage else [])],
                                     derivs=[dict(root=0, name=dk, cmp=2)])
         except ValueError:
-            c.count('linearize:not-serialisable'); continue
+            c.count('linearize:not-serialisable'); return
         except Exception as e:
-            c.failing_input('linearize:lowering-raises:' + type(e).__name__, 'lowering of linearize/derivative raises %s: %s' % (type(e).__name__, str(e)[:160]), replay); continue
+            c.failing_input('linearize:lowering-raises:' + type(e).__name__, 'lowering of linearize/derivative raises %s: %s' % (type(e).__name__, str(e)[:160]), replay); return
         c.case(eL.__nutils_hash__, nontrivial=True)
         if len(c.samples) < 5: c.sample(dict(stream='linearize', f_arguments=sig_of(f.arguments), spec=spec_repr(spec)))
 
@@ -527,6 +542,17 @@ def _run(c):
                    'derivative(f, u) is not the array of partial derivatives of f', replay)
         batch.add(reqs, handler)
 
+    N2 = 50 if quick else 2000
+    for i in range(N2):
+        poly = rng.random() < .7
+        gen = G.FGen(rng, poly=poly, ints=rng.random() < .3)
+        shape = rng.choice([(), (3,), (2,), (2, 3), (3,)])
+        try:
+            f = gen.array(shape, rng.randint(1, 3 if quick else 4))
+        except Exception as e:
+            c.count('generator-exception:' + type(e).__name__); continue
+        linearize_case(f, gen, G.POOL)
+
     c.log('stream linearize generated')
     # =============================================================================== stream 3: factor, zero_all_arguments, argument_degree (V)
     def degrees_of(e):
@@ -538,13 +564,14 @@ def _run(c):
                 out[a.name] = None
         return out
 
-    def factor_case(f, tag, simplified, replay, allow_factor=True):
+    def factor_case(f, tag, simplified, replay, allow_factor=True, gen=None, second=False):
         eF = lower(f, simplified)
         try:
             deg = degrees_of(eF.simplified)
         except Exception as e:
             c.failing_input('argument_degree:raises:' + type(e).__name__, 'argument_degree raises %s: %s' % (type(e).__name__, str(e)[:100]), replay); return
         names = sorted(n for n in f.arguments)
+        dirargs = []; more = []; more_arrays = []
         polyn = all(d is not None for d in deg.values())
         total = sum(d for d in deg.values() if d is not None)
         roots = [eF]; extra = dict(degrees=[dict(root=0, names=names)], cmp=[], binds=[], lins=[])
@@ -562,16 +589,61 @@ def _run(c):
             roots.append(eFa); extra['cmp'].append([0, 1])
             c.count('factor:degree-%d' % total)
             # derivative of the factored form (Monomial._derivative with its `powers` multiplicities)
-            fkeys = [n for n, (s, d) in f.arguments.items() if d == float]
+            fkeys = sorted(n for n, (s, d) in f.arguments.items() if d == float)
+            # `more`: further claims on the factored form (stream, index into lins, root of the real tree, real array, reference on f, certifying claim)
             if fkeys:
-                k = rng.choice(fkeys)
+                # all real arguments at once when `second` (every Monomial._derivative branch in one claim), else one of them
+                rng.shuffle(fkeys)
+                lkeys = fkeys[:3] if second else fkeys[:1]
+                P1 = {k: '#v' + k for k in lkeys}
+                dirargs += [(v, f.arguments[k]) for k, v in P1.items()]
                 try:
-                    LFa = function.linearize(Fa, {k: '#v'})
-                    roots.append(lower(LFa)); extra['lins'].append(dict(root=0, pairs={k: '#v'}, cmp=len(roots) - 1))
+                    LFa = function.linearize(Fa, dict(P1))
+                    roots.append(lower(LFa)); extra['lins'].append(dict(root=0, pairs=P1, cmp=len(roots) - 1))
                 except NotImplementedError:
                     c.count('factor:derivative-not-implemented'); LFa = None
                 except Exception as e:
                     c.failing_input('factor:derivative-raises:' + type(e).__name__, 'linearize(factor(f)) raises %s: %s' % (type(e).__name__, str(e)[:100]), replay); LFa = None
+                if LFa is not None and second:
+                    # (i) second derivative: linearize(f) is certified against the formal derivative of f, the second linearization of
+                    #     the factored form against the formal derivative of that certified tree
+                    k2 = rng.choice(fkeys)
+                    try:
+                        L1f = function.linearize(f, dict(P1))
+                        L2f = function.linearize(L1f, {k2: '#w'})
+                        L2Fa = function.linearize(LFa, {k2: '#w'})
+                        i1 = len(roots); roots.append(lower(L1f)); roots.append(lower(L2Fa))
+                        dirargs.append(('#w', f.arguments[k2]))
+                        extra['lins'].append(dict(root=0, pairs=P1, cmp=i1))
+                        extra['lins'].append(dict(root=i1, pairs={k2: '#w'}, cmp=i1 + 1))
+                        more.append(('factor-second-derivative', len(extra['lins']) - 1, i1 + 1, L2Fa, L2f, ('lins', len(extra['lins']) - 2)))
+                        c.count('factor:second-derivative')
+                    except Exception as e:
+                        c.failing_input('factor:second-derivative-raises:' + type(e).__name__, 'the second derivative of factor(f) raises %s: %s' % (type(e).__name__, str(e)[:100]), replay)
+                    # (ii) replace an argument of the factored form by an expression and differentiate through it (chain rule in
+                    #      Monomial._derivative): replace(f, k:g) is certified against f∘g, the derivative against that tree
+                    if gen is not None:
+                        try:
+                            kr = rng.choice(fkeys)
+                            g_ = gen.array(f.arguments[kr][0], rng.randint(0, 1))
+                            Rf = function.replace_arguments(f, {kr: g_}); RFa = function.replace_arguments(Fa, {kr: g_})
+                            tkeys = sorted(n for n, (s_, d_) in Rf.arguments.items() if d_ == float)
+                        except Exception as e:
+                            c.count('generator-exception:' + type(e).__name__); tkeys = []
+                        if tkeys:
+                            rng.shuffle(tkeys)
+                            PR = {k_: '#r' + k_ for k_ in tkeys[:2]}
+                            try:
+                                LRf = function.linearize(Rf, dict(PR)); LRFa = function.linearize(RFa, dict(PR))
+                                ig = len(roots); roots += [lower(g_), lower(Rf), lower(LRFa)]
+                                dirargs += [(v_, Rf.arguments[k_]) for k_, v_ in PR.items()]
+                                more_arrays.append(g_)
+                                extra['binds'].append(dict(stages=[{kr: ig}], root=0, cmp=ig + 1))
+                                extra['lins'].append(dict(root=ig + 1, pairs=PR, cmp=ig + 2))
+                                more.append(('factor-replace-derivative', len(extra['lins']) - 1, ig + 2, LRFa, LRf, ('binds', len(extra['binds']) - 1)))
+                                c.count('factor:replace-then-derivative')
+                            except Exception as e:
+                                c.failing_input('factor:replace-derivative-raises:' + type(e).__name__, 'linearize(replace(factor(f), …)) raises %s: %s' % (type(e).__name__, str(e)[:100]), replay)
         else:
             c.count('factor:skipped-' + ('int-arguments' if not allow_factor else 'nonpolynomial' if not polyn else 'degree>%d' % (4 if quick else 5) if total > (4 if quick else 5) else 'raised'))
         # zero_all_arguments vs binding every argument to zeros
@@ -580,8 +652,9 @@ def _run(c):
         zstage = {}
         for a in eF.arguments:
             zstage[a.name] = len(roots); roots.append(ev.zeros_like(a))
+        zb = len(extra['binds'])
         extra['binds'].append(dict(stages=[zstage], root=0, cmp=zi))
-        values = values_for(f, extra=[('#v', f.arguments[k])] if Fa is not None and extra['lins'] else [])
+        values = values_for(f, *more_arrays, extra=dirargs)
         try:
             reqs, s = expr_requests(roots, values, **extra)
         except ValueError:
@@ -615,7 +688,7 @@ def _run(c):
                 if kz == 'exception': return True, dict(real_result=repr(zv))
                 if kz == 'ok' and kf == 'ok': return (not X.arrays_close(zv, fv)), dict(real_result=tolist(zv), real_expected=tolist(fv))
                 return False, {}
-            settle(c, 'zero_all_arguments', a_sym['binds'][0], a_conc['binds'][0], a_conc['results'][zi], confirm_zero, 'zero_all_arguments:value-differs',
+            settle(c, 'zero_all_arguments', a_sym['binds'][zb], a_conc['binds'][zb], a_conc['results'][zi], confirm_zero, 'zero_all_arguments:value-differs',
                    'zero_all_arguments(f) is not f at zero arguments', replay)
             if Fa is None: return
             kf, fv = feval(function, f, values); ka, av = feval(function, Fa, values)
@@ -631,16 +704,22 @@ def _run(c):
                 spec_eval(c, speceval, a_conc['results'][1], av, 'factored tree', replay)
             if extra['lins']:
                 li = extra['lins'][0]['cmp']
-                def confirm_dfa():
-                    kk = extra['lins'][0]['pairs']; k0 = next(iter(kk))
-                    k1, want = feval(function, function.linearize(f, {k0: '#v'}), values)
-                    k2, got = feval(function, LFa, values)
-                    if k2 != 'ok': return True, eval_failure(LFa, k2, got)
-                    if k1 == 'ok' and numpy.isfinite(want).all() and not X.arrays_close(want, got, rtol=1e-8, atol=1e-10):
-                        return True, dict(real_result=tolist(got), real_expected=tolist(want))
-                    return False, {}
-                settle(c, 'factor-derivative', a_sym['lins'][0], a_conc['lins'][0], a_conc['results'][li], confirm_dfa, 'factor:derivative-differs',
-                       'the derivative of factor(f) (Monomial._derivative) is not the derivative of f', replay)
+                def confirm_against(got_arr, want_arr):
+                    def confirm():
+                        k1, want = feval(function, want_arr, values)
+                        k2, got = feval(function, got_arr, values)
+                        if k2 != 'ok': return True, eval_failure(got_arr, k2, got)
+                        if k1 == 'ok' and numpy.isfinite(want).all() and not X.arrays_close(want, got, rtol=1e-8, atol=1e-10):
+                            return True, dict(real_result=tolist(got), real_expected=tolist(want), arguments={k_: tolist(v_) for k_, v_ in values.items()})
+                        return False, {}
+                    return confirm
+                settle(c, 'factor-derivative', a_sym['lins'][0], a_conc['lins'][0], a_conc['results'][li], confirm_against(LFa, function.linearize(f, dict(extra['lins'][0]['pairs']))),
+                       'factor:derivative-differs', 'the derivative of factor(f) (Monomial._derivative) is not the derivative of f', replay)
+                for stream_, il, ir, got_arr, want_arr, (pk, pi) in more:
+                    # the claim is relative to a real tree that is itself certified by claim (pk, pi) of the same request
+                    rel = lambda a: a['lins'][il] if a[pk][pi]['verdict'] == 'same' else dict(a['lins'][il], verdict='differ' if a['lins'][il]['verdict'] == 'same' else a['lins'][il]['verdict'])
+                    settle(c, stream_, rel(a_sym), rel(a_conc), a_conc['results'][ir], confirm_against(got_arr, want_arr), 'factor:' + stream_[7:] + '-differs',
+                           'the %s of factor(f) is not that of f' % stream_[7:].replace('-', ' '), replay)
         batch.add(reqs, handler)
 
     N3 = 40 if quick else 1400
@@ -656,7 +735,8 @@ def _run(c):
         if rng.random() < .5:
             f = f + rng.choice([1., -2., .5])    # make sure constant terms occur
         if not base_ok(c, f): continue
-        factor_case(f, 'plain', False, dict(stream='factor', f=describe(function, f), f_arguments=sig_of(f.arguments)), allow_factor=not any(d == int for s_, d in f.arguments.values()))
+        factor_case(f, 'plain', False, dict(stream='factor', f=describe(function, f), f_arguments=sig_of(f.arguments)), allow_factor=not any(d == int for s_, d in f.arguments.values()),
+                    gen=G.FGen(rng, poly=True, ints=False), second=rng.random() < .4)
     N3b = 6 if quick else 150
     for i in range(N3b):
         tname, topo, geom = topos[i % len(topos)]
@@ -668,6 +748,37 @@ def _run(c):
         factor_case(I, 'integral:' + tag, True, dict(stream='factor', integral=tag, f_arguments=sig_of(I.arguments)))
 
     c.log('stream factor generated')
+    # =============================================================================== stream 3c: arguments with 3 or 4 axes (V)
+    # the same three claims (replace, linearize / derivative, factor and its first / second derivative and derivative through a
+    # replacement) over a per-case pool whose arguments have 3-4 axes of (mostly) pairwise different lengths
+    N3c = 24 if quick else 600
+    for i in range(N3c):
+        pool, S = G.nd_pool(rng)
+        gen = G.FGen(rng, poly=True, pool=pool, ints=False)
+        try:
+            f = G.nd_array(rng, gen, S)
+        except Exception as e:
+            c.count('generator-exception:' + type(e).__name__); continue
+        for k, v in gen.hits.items(): c.count('gen:' + k, v)
+        if not any(len(f.arguments[n][0]) >= 3 for n in f.arguments):
+            c.count('nd:no-many-axes-argument'); continue
+        c.count('nd:argument-axes-%d' % len(S)); c.count('nd:lengths-' + ('pairwise-different' if len(set(S)) == len(S) else 'repeated'))
+        which = ('factor', 'factor', 'linearize', 'replace')[i % 4]
+        c.count('nd:' + which)
+        if which == 'factor':
+            if not base_ok(c, f): continue
+            factor_case(f, 'nd', False, dict(stream='factor', tag='nd', f=describe(function, f), f_arguments=sig_of(f.arguments)), gen=gen, second=True)
+        elif which == 'linearize':
+            linearize_case(f, gen, pool, tag='nd')
+        else:
+            if not base_ok(c, f): continue
+            replace_case(f, pool, gen, 'nd', nested=rng.random() < .3)
+
+    c.log('stream many-axes generated')
+    # =============================================================================== stream 3d: nested replacements in / around integrals (V)
+    nested_stream(c, batch, function, G, rng, topos, 16 if quick else 300, speceval)
+
+    c.log('stream nested generated')
     # =============================================================================== stream 4: spellings (M + oracle)
     spelling_stream(c, batch, function, ev, G, rng, 30 if quick else 800)
 
@@ -688,9 +799,12 @@ def _run(c):
     for k, v in speceval.items(): c.count('spec-eval:' + k, v)
     nse = speceval['exact'] + speceval['close']
     c.obligation('corr:spec-eval', not any(v[2] == 'broken:corr:spec-eval' for v in c.violations) and nse > 0, 'correspondence', '%d manipulated trees evaluated identically by the Lean specification evaluator and the real code' % nse)
-    for stream in ('replace', 'linearize', 'derivative', 'factor', 'factor-derivative', 'zero_all_arguments'):
+    for stream in ('replace', 'linearize', 'derivative', 'factor', 'factor-derivative', 'zero_all_arguments', 'factor-second-derivative', 'factor-replace-derivative',
+                   'nested-replace', 'nested-linearize'):
         ns = c.counters.get(stream + ':proved-symbolically-for-all-real-arguments', 0); nc = c.counters.get(stream + ':equal-exactly-at-sample-point', 0)
-        c.obligation('valid:' + stream, c.counters.get(stream + ':violation', 0) == 0 and ns + nc > 0, 'validation', '%d symbolic + %d at sample point' % (ns, nc))
+        nr = c.counters.get(stream + ':equal-within-float-rounding-at-sample-point', 0) if stream.startswith('nested') else 0   # Gauss points: rounded coefficients
+        c.obligation('valid:' + stream, c.counters.get(stream + ':violation', 0) == 0 and ns + nc + nr > 0, 'validation',
+                     '%d symbolic + %d at sample point' % (ns, nc) + (' + %d within float rounding' % nr if nr else ''))
     c.extra['proved_symbolically_for_all_real_arguments'] = sum(v for k, v in c.counters.items() if k.endswith(':proved-symbolically-for-all-real-arguments'))
     c.obligation('oracle:no-failing-input', not any(v[2] and not v[2].startswith('broken:') for v in c.violations), 'validation', 'no stream reported a failing input of the real code')
     for b in broken:
@@ -880,6 +994,144 @@ def spelling_stream(c, batch, function, ev, G, rng, N):
         c.obligation('corr:replace-init', not any(v[2] == 'broken:corr:replace-init' for v in c.violations) and nrepl > 0, 'correspondence', '%d announced argument maps' % nrepl)
         c.obligation('oracle:spellings-equivalent', bad == 0 and nequiv > 0, 'validation', '%d spellings compared with the dict spelling (arguments and values of replace and linearize)' % nequiv)
     batch.add([], fin)
+
+
+# ------------------------------------------------------------------------------------------------ nested replacements
+
+def nested_stream(c, batch, function, G, rng, topos, N, speceval):
+    """trees of integrals / samples / plain expressions connected by replacements that are applied inside the integrand (lowered with
+    points axes, inside the element loop of the enclosing integral, to any depth) or around the integral.
+    Specification: evaluate bottom-up — every replaced argument bound to the value of its replacement (Lean: staged binding of the
+    separately lowered components; real code: staged `function.eval` of the components)."""
+    from . import ser
+    for i in range(N):
+        tname, topo, geom = topos[i % len(topos)]
+        depth = rng.choice([2, 3, 3, 3, 4])
+        try:
+            top, free = G.nested_case(rng, tname, topo, geom, depth)
+            nodes = list(top.nodes_postorder())
+            comps = {nd.ident: nd.component() for nd in nodes}
+            R = top.build(rng)
+        except Exception as e:
+            c.count('generator-exception:' + type(e).__name__); continue
+        chain = top.inside_chain(); risky = top.has_outside_by_integral()
+        c.count('nested:depth-%d' % top.depth()); c.count('nested:loops-nested-through-inside-replacements-%d' % chain)
+        c.count('nested:mesh:' + tname)
+        for nd in nodes:
+            c.count('nested:node:' + nd.kind)
+            for a, (ch, where) in nd.children.items(): c.count('nested:edge:%s-by-%s' % (where if nd.kind != 'plain' else 'plain', 'integral' if ch.contains_integral() else 'plain'))
+        replay = dict(stream='nested', mesh=tname, construction=top.describe(), components={nd.ident: sig_of(comps[nd.ident].arguments) for nd in nodes}, arguments_of_result=sig_of(R.arguments))
+        # announced arguments: exactly the unreplaced ones
+        want = {}
+        for nd in nodes:
+            for n_, sd in comps[nd.ident].arguments.items():
+                if n_ not in nd.children: want[n_] = sd
+        if dict(R.arguments) != want:
+            c.failing_input('replace:announced-arguments-wrong', '.arguments of a nested replacement is not the set of unreplaced arguments', dict(replay, expected=sig_of(want)))
+        values = G.sample_values(rng, want)
+
+        def staged(vals, top=top, nodes=nodes, comps=comps):
+            env = dict(vals)
+            # post-order: the value of every node is computed after the values of its children are bound to its own arguments
+            out = {}
+            for nd in nodes:
+                e = dict(env)
+                for a, (ch, where) in nd.children.items(): e[a] = out[ch.ident]
+                k, v = feval(function, comps[nd.ident], e)
+                if k != 'ok': return k, v
+                out[nd.ident] = v
+            return 'ok', out[top.ident]
+
+        ks, wantv = staged(values)
+        if ks != 'ok' or not numpy.isfinite(wantv).all():
+            c.count('nested:components-do-not-evaluate'); continue
+        c.case(('nested', top.describe(), tname), nontrivial=bool(top.children))
+
+        def attribute(kind, got, top=top, values=values, wantv=wantv, risky=risky):
+            """root cause of a failing nested case: the open finding (an integral replaced from outside by an array containing an integral)
+            iff the same construction with those replacements moved inside the integrands — equal by the property — evaluates correctly"""
+            detail = dict(real_expected=tolist(wantv), arguments={k: tolist(v) for k, v in values.items()})
+            detail.update(eval_failure_plain(kind, got) if kind != 'ok' else dict(real_result=tolist(got)))
+            if risky:
+                kv, gv = X.guarded(lambda: numpy.asarray(function.eval(top.build(rng, force_inside=True), values)), 30)
+                if kv == 'ok' and X.arrays_close(gv, wantv, rtol=1e-9, atol=1e-11):
+                    c.count('nested:outside-by-integral:collision(known-finding)')
+                    return dict(detail, signature=OUTSIDE_SIG)
+                detail['all_inside_variant'] = tolist(gv) if kv == 'ok' else repr(gv)
+            return dict(detail, signature='replace:nested:' + ('value-differs' if kind == 'ok' else 'evaluation-raises:' + (type(got).__name__ if kind == 'exception' else kind)))
+
+        kr, got = feval(function, R, values, timeout=30)
+        real_bad = kr != 'ok' or not X.arrays_close(got, wantv, rtol=1e-9, atol=1e-11)
+        what = 'a nested replacement (replacement values that are integrals containing replacements, %d element loops deep) does not evaluate to the integrand with the replaced arguments bound to the values of their replacements' % chain
+        if real_bad:
+            d = attribute(kr, got)
+            c.count('nested-replace:violation' if d['signature'] != OUTSIDE_SIG else 'nested-replace:known-finding')
+            c.failing_input(d.pop('signature'), what, dict(replay, **d))
+            continue
+        # ---- Lean: staged binding of the separately lowered components == the lowered nested construction
+        try:
+            eR = lower(R, True)
+            ecomp = {nd.ident: lower(comps[nd.ident], True) for nd in nodes}
+        except Exception as e:
+            c.failing_input('replace:nested:lowering-raises:' + type(e).__name__, 'lowering of a nested replacement raises although it evaluates: %s' % str(e)[:120], replay); continue
+        roots = [ecomp[top.ident], eR]; pos = {top.ident: 0}
+        for nd in nodes:
+            if nd.ident not in pos: pos[nd.ident] = len(roots); roots.append(ecomp[nd.ident])
+        stages = [{a: pos[ch.ident] for a, (ch, where) in nd.children.items()} for nd in nodes if nd.children]
+        extra = dict(binds=[dict(stages=stages, root=0, cmp=1)], lins=[])
+        # linearize the whole construction to an unreplaced real argument
+        tk = sorted(want); rng.shuffle(tk)
+        L = None; P = {}
+        if tk:
+            P = {k: '#v' + k for k in tk[:2]}
+            try:
+                L = function.linearize(R, dict(P))
+                roots.append(lower(L, True)); extra['lins'].append(dict(root=1, pairs=P, cmp=len(roots) - 1))
+            except Exception as e:
+                c.failing_input('linearize:nested:raises:' + type(e).__name__, 'linearize of a nested replacement raises %s: %s' % (type(e).__name__, str(e)[:120]), replay); L = None
+        dvals = G.sample_values(rng, {v: want[k] for k, v in P.items()}) if L is not None else {}
+        allv = dict(values, **dvals)
+        # symbolic in the scalar arguments only (the composition of `depth` quadratic levels has a high degree)
+        symn = [k for k, v in allv.items() if numpy.ndim(v) == 0][:3]
+        try:
+            l1, _ = ser.request(roots, {k: v for k, v in allv.items() if k not in symn}, symbolic={k: () for k in symn})
+            l2, _ = ser.request(roots, allv)
+        except ValueError:
+            c.count('nested:not-serialisable'); continue
+        reqs = []
+        for l in (l1, l2):
+            d = json.loads(l); d['op'] = 'expr'; d.update(extra); reqs.append(d)
+
+        li = len(roots) - 1
+        def handler(a_sym, a_conc, R=R, L=L, P=P, got=got, allv=allv, values=values, dvals=dvals, replay=replay, staged=staged, what=what, li=li):
+            out = settle(c, 'nested-replace', a_sym['binds'][0], a_conc['binds'][0], a_conc['results'][1], lambda: (False, {}), 'replace:nested:value-differs', what, replay)
+            spec_eval(c, speceval, a_conc['results'][1], got, 'nested replacement', replay)
+            if L is None: return
+            def confirm_lin():
+                kl, lv = feval(function, L, allv, timeout=30)
+                if kl != 'ok': return True, dict(eval_failure(L, kl, lv), signature='linearize:nested:evaluation-raises')
+                errs = []; fd = None
+                for h in (2.**-6, 2.**-9, 2.**-12):
+                    plus = dict(values); minus = dict(values)
+                    for k, v in P.items():
+                        plus[k] = values[k] + h * dvals[v]; minus[k] = values[k] - h * dvals[v]
+                    k1, fp = staged(plus); k2, fm = staged(minus)
+                    if k1 != 'ok' or k2 != 'ok': return False, {}
+                    fd = (fp - fm) / (2 * h)
+                    errs.append(float(numpy.abs(fd - lv).max(initial=0.)))
+                scale = max(1., float(numpy.abs(fd).max(initial=0.)), float(numpy.abs(lv).max(initial=0.)))
+                agrees = min(errs) <= 1e-6 * scale or errs[-1] <= .25 * errs[0]
+                return (not agrees), dict(finite_difference_of_the_staged_evaluation=tolist(fd), real_result=tolist(lv), errors_for_decreasing_h=errs, arguments={k: tolist(v) for k, v in allv.items()})
+            certified = lambda a: a['binds'][0]['verdict'] == 'same'
+            rel = lambda a: a['lins'][0] if certified(a) else dict(a['lins'][0], verdict='differ' if a['lins'][0]['verdict'] == 'same' else a['lins'][0]['verdict'])
+            # the formal derivative is taken of the real nested tree, which the first claim certifies; otherwise finite differences of the staged evaluation decide
+            settle(c, 'nested-linearize', rel(a_sym), rel(a_conc), a_conc['results'][li], confirm_lin, 'linearize:nested:value-differs',
+                   'linearize of a nested replacement is not the directional derivative of the staged evaluation', replay)
+        batch.add(reqs, handler)
+
+
+def eval_failure_plain(kind, val):
+    return dict(real_result='%s: %r' % (kind, val))
 
 
 # ------------------------------------------------------------------------------------------------ run-time checks
